@@ -10,14 +10,13 @@ Local Open Scope N_scope.
 (* For every template of the documented forms (scheme://HOST[/static], scheme://HOST$path,
    scheme://HOST/pre$path, scheme://HOST/pre/$path, HOST literal or containing $host; [tmpl_dom]),
    every request path made of unescaped path bytes and %XY triplets, every query, host, strip
-   and prepend ([req_dom]), outside finding region 1: the text of the Location is the template
-   with $host := the request's host and $path := the request path exactly as written on the
-   request line, after strip and prepend, with the request's query iff the template has none
+   and prepend ([req_dom]): the text of the Location is the template with $host := the
+   request's host and $path := the request path exactly as written on the request line, after
+   strip and prepend, with the request's query iff the template has none
    ([expected_location] is defined on the request line, without Path/RawPath). *)
 Theorem C13_location_spec : forall t wire q,
   tmpl_dom t = true -> req_dom t wire q = true ->
   set_path wire = Some (q_path q, q_rawpath q) ->
-  region_adjacent_raw t q = false ->
   url_string (build_redirect_url t q) = expected_location t wire q.
 Proof. exact location_spec. Qed.
 Print Assumptions C13_location_spec.
@@ -30,13 +29,16 @@ Theorem C13_location_spec_nonvacuous :
 Proof. exact location_spec_nonvacuous. Qed.
 Print Assumptions C13_location_spec_nonvacuous.
 
-(* finding F-C13-1: https://$host$path and GET /a%2Fb: Location https://foo.com/a/b *)
+(* finding F-C13-1, repaired in /repo by fix e4368b6: BuildRedirectURL before the repair
+   ([build_redirect_url_unrepaired]) left RawPath empty for $path glued to the host:
+   https://$host$path and GET /a%2Fb gave Location https://foo.com/a/b *)
 Theorem C13_host_adjacent_path_decoded_refuted :
   exists t wire q, tmpl_dom t = true /\ req_dom t wire q = true
     /\ set_path wire = Some (q_path q, q_rawpath q)
-    /\ url_string (build_redirect_url t q) = bs "https://foo.com/a/b"
+    /\ url_string (build_redirect_url_unrepaired t q) = bs "https://foo.com/a/b"
     /\ expected_location t wire q = bs "https://foo.com/a%2Fb"
-    /\ region_adjacent_raw t q = true.
+    /\ region_adjacent_raw t q = true
+    /\ url_string (build_redirect_url t q) = bs "https://foo.com/a%2Fb".
 Proof. exact host_adjacent_path_decoded_refuted. Qed.
 Print Assumptions C13_host_adjacent_path_decoded_refuted.
 
@@ -57,14 +59,13 @@ Theorem C13_code_range_refuted :
 Proof. exact code_range_refuted. Qed.
 Print Assumptions C13_code_range_refuted.
 
-(* a request that Lookup answers with a redirect target never reaches the upstream, whatever
-   the shared targets held before; with a 3xx code the response is that code and the Location
-   built from THIS request *)
-Theorem C13_no_upstream_on_redirect : forall q cands st t ws,
-  lookup q cands = (Some t, ws) -> is_redirect t = true ->
-  upstream_calls (fst (handle q cands st)) = O
+(* a request that Lookup answers with a redirect target never reaches the upstream; with a
+   3xx code the response is that code and the Location built from THIS request *)
+Theorem C13_no_upstream_on_redirect : forall q cands t ou,
+  lookup q cands = Some (t, ou) -> is_redirect t = true ->
+  upstream_calls (handle q cands) = O
   /\ (code_ok (t_code t) = true ->
-      fst (handle q cands st) = RRedirect (t_code t) (hex_escape_non_ascii (url_string (build_redirect_url t q)))).
+      handle q cands = RRedirect (t_code t) (hex_escape_non_ascii (url_string (build_redirect_url t q)))).
 Proof. exact no_upstream_on_redirect. Qed.
 Print Assumptions C13_no_upstream_on_redirect.
 
@@ -73,11 +74,11 @@ Print Assumptions C13_no_upstream_on_redirect.
    host is the first one whose route does not point back at the request's own scheme, host and
    path, none if there is no such host (reference loop [ref_lookup]); hence Lookup never returns
    a redirect that points back at the request *)
-Theorem C13_self_redirect_skipped : forall q cands, fst (lookup q cands) = ref_lookup q cands.
+Theorem C13_self_redirect_skipped : forall q cands, chosen_target (lookup q cands) = ref_lookup q cands.
 Proof. exact self_redirect_skipped. Qed.
 Print Assumptions C13_self_redirect_skipped.
 Theorem C13_self_redirect_never_returned : forall q cands t,
-  fst (lookup q cands) = Some t -> is_redirect t = true -> points_back (build_redirect_url t q) q = false.
+  chosen_target (lookup q cands) = Some t -> is_redirect t = true -> points_back (build_redirect_url t q) q = false.
 Proof. exact self_redirect_never_returned. Qed.
 Print Assumptions C13_self_redirect_never_returned.
 (* finding F-C13-3, repaired in /repo by fix 4431a54: the loop before the repair
@@ -85,7 +86,7 @@ Print Assumptions C13_self_redirect_never_returned.
 Theorem C13_self_redirect_last_host_refuted :
   exists q cands t, fst (lookup_unrepaired q cands) = Some t /\ ref_lookup q cands = None
     /\ points_back (build_redirect_url t q) q = true
-    /\ fst (lookup q cands) = None.
+    /\ lookup q cands = None.
 Proof. exact self_redirect_last_host_refuted. Qed.
 Print Assumptions C13_self_redirect_last_host_refuted.
 (* finding F-C13-4, repaired in /repo by fix bcdacf0: the loop before the repair
@@ -95,29 +96,48 @@ Theorem C13_self_redirect_without_xfp_refuted :
   exists q cands, q_xfp q = [] /\ ref_lookup q cands = Some t_upstream
     /\ fst (lookup_hdr_only q cands) = Some t_back
     /\ points_back (build_redirect_url t_back q) q = true
-    /\ fst (lookup q cands) = Some t_upstream.
+    /\ chosen_target (lookup q cands) = Some t_upstream.
 Proof. exact self_redirect_without_xfp_refuted. Qed.
 Print Assumptions C13_self_redirect_without_xfp_refuted.
 
-(* simultaneous requests.  A request handled without interference is answered from the
-   request alone (the previous content of the shared RedirectURL fields is irrelevant), and so
-   is every request of every schedule in which each Lookup is directly followed by its serve
-   step ... *)
-Theorem C13_answer_from_request_alone : forall q cands st,
-  fst (handle q cands st) = fst (handle q cands []).
-Proof. exact handle_store_irrelevant. Qed.
-Print Assumptions C13_answer_from_request_alone.
-Theorem C13_serial_schedule_own : forall reqs order w,
-  Forall (fun i => (i < length reqs)%nat) order ->
-  w_out (run_sched reqs (serial order) w) = rev (map (fun i => (i, own reqs i)) order) ++ w_out w.
-Proof. exact serial_schedule_own. Qed.
-Print Assumptions C13_serial_schedule_own.
-(* ... but not of every schedule (finding F-C13-2): Lookup A, Lookup B, serve A *)
+(* request header fields: the answer depends on them only through X-Forwarded-Proto (and Host);
+   Upgrade / Accept / Connection / anything else never change it, and a redirect route is
+   answered with its 3xx and the Location of this request whatever they are *)
+Theorem C13_headers_irrelevant : forall hs hs' host path rawpath query tls cands,
+  header_get hs h_xfp = header_get hs' h_xfp ->
+  handle_full hs host path rawpath query tls cands = handle_full hs' host path rawpath query tls cands.
+Proof. exact headers_irrelevant. Qed.
+Print Assumptions C13_headers_irrelevant.
+Theorem C13_redirect_whatever_headers : forall hs host path rawpath query tls cands t ou,
+  lookup (request_of hs host path rawpath query tls) cands = Some (t, ou) -> is_redirect t = true ->
+  code_ok (t_code t) = true ->
+  handle_full hs host path rawpath query tls cands
+  = RRedirect (t_code t) (hex_escape_non_ascii (url_string (build_redirect_url t (request_of hs host path rawpath query tls)))).
+Proof. exact redirect_whatever_headers. Qed.
+Print Assumptions C13_redirect_whatever_headers.
+
+(* simultaneous requests.  Lookup and the rest of ServeHTTP are two atomic actions per request.
+   For EVERY interleaving of these actions, of ANY number of requests (any list [reqs], any
+   schedule, requests repeated or served several times included): every response that is sent
+   is the answer of its own request, [own reqs i] = [handle q_i cands_i], a function of that
+   request and of the table only. *)
+Theorem C13_every_schedule_own : forall reqs sched,
+  Forall (fun rr => snd rr = own reqs (fst rr)) (w_out (run_sched reqs sched world0)).
+Proof. exact every_schedule_own. Qed.
+Print Assumptions C13_every_schedule_own.
+Theorem C13_every_schedule_own_nonvacuous :
+  w_out (run_sched two_reqs [ALookup 0; ALookup 1; AServe 0; AServe 1] world0)
+  = [(1%nat, RRedirect 301%Z (bs "https://foo.com/from-B")); (0%nat, RRedirect 301%Z (bs "https://foo.com/from-A"))].
+Proof. exact every_schedule_own_nonvacuous. Qed.
+Print Assumptions C13_every_schedule_own_nonvacuous.
+(* finding F-C13-2, repaired in /repo by fix ddf101c: before the repair the URL sat in the
+   RedirectURL field of the shared target ([run_sched_shared]); Lookup A, Lookup B, serve A
+   answered A with B's Location *)
 Theorem C13_redirect_cross_talk_refuted :
   exists reqs sched,
     own reqs 0 = RRedirect 301%Z (bs "https://foo.com/from-A")
     /\ own reqs 1 = RRedirect 301%Z (bs "https://foo.com/from-B")
-    /\ w_out (run_sched reqs sched world0)
+    /\ ws_out (run_sched_shared reqs sched world_shared0)
        = [(1%nat, RRedirect 301%Z (bs "https://foo.com/from-B")); (0%nat, RRedirect 301%Z (bs "https://foo.com/from-B"))].
 Proof. exact redirect_cross_talk_refuted. Qed.
 Print Assumptions C13_redirect_cross_talk_refuted.
